@@ -121,6 +121,15 @@ class Builder:
         self.reads.append(_mk(self.h, name, BG[90:90 + rl], 0x1 | 0x4 | 0x8 | 0x80, None, -1, None, None, -1, tags))
         return name
 
+    def placed_unmapped_orphan(self, contig, pos, cell=1, umi='AAA', name=None, read2=True):
+        """an unmapped read that the aligner placed on `contig` (next to a mate that is not in the file): idxstats counts it
+        as an unmapped read OF THAT CONTIG"""
+        name = name or self._name('o')
+        tags = base_tags(cell, umi)
+        flag = 0x1 | 0x4 | (0x80 if read2 else 0x40)
+        self.reads.append(_mk(self.h, name, BG[60:60 + self.rlen], flag, contig, pos, None, contig, pos, tags))
+        return name
+
     def write(self, path):
         def key(r):
             if r.reference_id < 0:
